@@ -16,38 +16,35 @@ abbrev Src := List Nat
 
 /-! ## file/file.go: `(*File).Position` -/
 
-/-- `strings.Count(src, "\n")` -/
-def countLF : Src → Nat
-  | [] => 0
-  | b :: r => (if b = 10 then 1 else 0) + countLF r
+/-- `strings.HasPrefix(src[index:], "\u2028")` / `"\u2029"`: the bytes E2 80 A8 / E2 80 A9 at this index -/
+def isLSPS (b : Nat) (r : Src) : Bool :=
+  match r with
+  | b2 :: b3 :: _ => b = 0xE2 && b2 = 0x80 && (b3 = 0xA8 || b3 = 0xA9)
+  | _ => false
 
-/-- `strings.LastIndex(src, "\n")` (`none` = -1) -/
-def lastIndexLF : Src → Option Nat
-  | [] => none
-  | b :: r => match lastIndexLF r with
-    | some i => some (i + 1)
-    | none => if b = 10 then some 0 else none
+/-- the loop of `Position` over `src[:offset]`; state = (index, line, last) plus `skip` = bytes the loop steps over
+    after `index++` / `index += 2` -/
+def fpLoop : Src → Nat → Nat → Int → Nat → Nat × Int
+  | [], _, line, last, _ => (line, last)
+  | _ :: r, i, line, last, skip + 1 => fpLoop r (i + 1) line last skip
+  | b :: r, i, line, last, 0 =>
+    if b = 13 then
+      (if r.head? = some 10 then fpLoop r (i + 1) (line + 1) (i + 1) 1      -- case '\r' followed by '\n': index++; line, last = line+1, index
+       else fpLoop r (i + 1) (line + 1) i 0)                                -- case lone '\r'
+    else if b = 10 then fpLoop r (i + 1) (line + 1) i 0                     -- case '\n'
+    else if isLSPS b r then fpLoop r (i + 1) (line + 1) (i + 2) 2           -- case U+2028 / U+2029: index += 2
+    else fpLoop r (i + 1) line last 0
 
-/-- file/file.go:142 `Position(idx)`: `none` = nil.  (Source maps are not modelled: `fl.sm == nil`.) -/
+/-- file/file.go `Position(idx)`: `none` = nil.  (Source maps are not modelled: `fl.sm == nil`.) -/
 def filePosition (src : Src) (base : Int) (idx : Int) : Option (Nat × Nat) :=
   let offset := idx - base
   if offset ≥ (src.length : Int) ∨ offset < 0 then none
   else
     let off := offset.toNat
-    let pre := src.take off                      -- src := fl.src[:offset]
-    let line := countLF pre + 1
-    let col := match lastIndexLF pre with
-      | some index => off - index               -- position.Column = offset - index
-      | none => pre.length + 1                  -- position.Column = len(src) + 1
-    some (line, col)
+    let (line, last) := fpLoop (src.take off) 0 0 (-1) 0     -- src := fl.src[:offset]; line, last := 0, -1
+    some (line + 1, ((off : Int) - last).toNat)              -- Line = line + 1; Column = offset - last
 
 /-! ## parser/parser.go:299 `lineCount`, :323 `(*parser).position` -/
-
-/-- `chr` at this index is U+2028 or U+2029: the bytes E2 80 A8 / E2 80 A9 -/
-def isLSPS (b : Nat) (r : Src) : Bool :=
-  match r with
-  | b2 :: b3 :: _ => b = 0xE2 && b2 = 0x80 && (b3 = 0xA8 || b3 = 0xA9)
-  | _ => false
 
 /-- the loop of `lineCount`; state = (index, line, last, pair) plus `skip` = bytes of the current
     (3-byte) rune that `range` still steps over -/
@@ -167,7 +164,7 @@ deriving Repr, DecidableEq
 /-- statements already completed in the calling activation before the call site -/
 inductive Pre
   | doneCall (f : Form) (off : Int)      -- an earlier call expression that returned (leaves its `atv` in frame.offset)
-  | directEval (off : Int) (file : Nat)  -- an earlier direct `eval("…")`: cmplEvaluateNodeProgram(eval=true) overwrites rt.scope.frame.file
+  | directEval (off : Int) (file : Nat)  -- an earlier direct `eval("…")` of source `file`: the call site is recorded, the eval code runs in this scope
 deriving Repr, DecidableEq
 
 /- the argument list of a call expression, as far as frames are concerned: which arguments are themselves
@@ -206,7 +203,9 @@ def setTopFile (k : Nat) : Stack → Stack
 def runPre : List Pre → Stack → Stack
   | [], s => s
   | .doneCall f off :: ps, s => runPre ps (setTopOffset (atvOf f off) s)            -- rt.scope.frame.offset = int(atv); callee enters and leaves
-  | .directEval off k :: ps, s => runPre ps (setTopFile k (setTopOffset off s))   -- offset = idx of `eval`; no scope; frame.file = node.file
+  -- offset = idx of `eval`; no scope; cmplEvaluateNodeProgram(eval=true) sets frame.file = node.file for the eval code
+  -- and restores the frame's file and offset (the eval call site) when it is done (cmpl_evaluate.go:14-22)
+  | .directEval off _ :: ps, s => runPre ps (setTopOffset off s)
 
 /- cmpl_evaluate_expression.go:185-191 / :263-266: the arguments are evaluated left to right, in the calling
     activation.  An argument that is itself a call evaluates *its* arguments, then records *its* call site in the
@@ -216,7 +215,7 @@ mutual
 def evalArg : Arg → Stack → Stack
   | .lit, s => s
   | .call f off as, s => setTopOffset (atvOf f off) (evalArgs as s)
-  | .evalDirect off k, s => setTopFile k (setTopOffset off s)
+  | .evalDirect off _, s => setTopOffset off s      -- as `Pre.directEval`: file and call site restored afterwards
 def evalArgs : Args → Stack → Stack
   | .nil, s => s
   | .cons a r, s => evalArgs r (evalArg a s)
